@@ -12,7 +12,11 @@
 //! `dist run` appends
 //!     ` => bgf=<5 f32 bits> sf=<bits*count,...> minp=<f64 bits> pv=<f64 bits,...>
 //!          sc=<f32 bits>:<f64 bits>,... sx=<p bits>:<f32 bits>:<f64 bits>,...`
+//!          sm=<p bits>:<f32 bits>,...
 //!   sf: run-length encoded table; sc/sx: score(p) and pvalue(score(p)); `P` marks a panic;
+//!   sm: `Distribution<f32>::sample` (feature `sampling`) driven by a StdRng seeded from the table length and
+//!       the number of probes; p is what `Uniform::new_inclusive(0.0, 1.0)` draws from a clone of that
+//!       generator (the oracle for rand's part), the second word is the sampled score;
 //!   ` => bgerr` when the background is rejected, ` => bgf=... BUILDPANIC` when the
 //!   construction of the distribution panics.
 
@@ -22,6 +26,9 @@ use lightmotif::dense::DenseMatrix;
 use lightmotif::num::{Unsigned, U5};
 use lightmotif::pwm::{CountMatrix, ScoringMatrix};
 use lmh::*;
+use rand::distributions::{Distribution, Uniform};
+use rand::rngs::StdRng;
+use rand::SeedableRng;
 
 const K: usize = 5;
 
@@ -190,15 +197,32 @@ fn run_case_a<A: Alphabet>(f: &std::collections::HashMap<String, String>) -> Str
             sx.push(format!("{}:{}:{}", p.to_bits(), s, r));
         }
     }
+    // Distribution<f32>::sample: three draws
+    let mut sm: Vec<String> = vec![];
+    {
+        let mut rng = StdRng::seed_from_u64(sf.len() as u64 * 1_000_003 + f["pr"].len() as u64);
+        for _ in 0..3 {
+            let p: f64 = Uniform::new_inclusive(0.0, 1.0).sample(&mut rng.clone());
+            let s = no_panic(|| {
+                let mut r = rng.clone();
+                let v: f32 = dist.sample(&mut r);
+                v
+            });
+            // advance the generator exactly as the call did
+            let _: f64 = Uniform::new_inclusive(0.0, 1.0).sample(&mut rng);
+            sm.push(format!("{}:{}", p.to_bits(), show_f32(s)));
+        }
+    }
     let dash = |v: Vec<String>| if v.is_empty() { "-".to_string() } else { v.join(",") };
     format!(
-        "bgf={} sf={} minp={} pv={} sc={} sx={}",
+        "bgf={} sf={} minp={} pv={} sc={} sx={} sm={}",
         bgf.join(","),
         rle.join(","),
         minp,
         dash(pv),
         dash(sc),
-        dash(sx)
+        dash(sx),
+        dash(sm)
     )
 }
 
@@ -542,7 +566,12 @@ fn params(rows: &[Vec<f32>]) -> Option<(f64, f64)> {
 /// a protein case: K = 21 (20 amino acids + X), width 1..3 so that all 20^M words are enumerable
 fn gen_case_protein(rng: &mut Rng, id: usize, tier: &str) -> String {
     const KP: usize = 21;
-    let m = *rng.pick(&[1usize, 2, 2, 3]);
+    // widths 4..6 (thorough: ..8): more than 70000 words, bit-exact replay and structural checks only
+    let m = if tier == "thorough" {
+        *rng.pick(&[1usize, 2, 2, 3, 3, 4, 6, 8])
+    } else {
+        *rng.pick(&[1usize, 2, 2, 3, 3, 4, 5, 6])
+    };
     let wmass = rng.chance(1, 8);
     let (mode, text, wild_mass): (&str, String, bool) = if wmass {
         let w = dyadic_weights(rng, KP, 1024, false);
